@@ -153,3 +153,83 @@ example : RepEq [⟨[[0], [1]], 2, []⟩, ⟨[[0], [1]], 1, []⟩, ⟨[[1]], 3, 
     (by intro b hb; simp at hb; rw [hb]; decide)
 
 end VK
+
+namespace VK
+/-! ### pairwise rules -/
+
+theorem h2h_rep (cands : List Cand) (a b : List Ballot) (h : RepEq a b) (x y : Cand) :
+    h2h { ballots := a, cands := cands } x y = h2h { ballots := b, cands := cands } x y :=
+  h.lin (fun k => prefShareR k.1 x y)
+
+theorem edge_rep (cands : List Cand) (a b : List Ballot) (h : RepEq a b) :
+    edge { ballots := a, cands := cands } = edge { ballots := b, cands := cands } := by
+  funext x y
+  unfold edge margin
+  rw [h2h_rep cands a b h, h2h_rep cands a b h]
+
+theorem isEmpty_rep (a b : List Ballot) (h : RepEq a b) : a.isEmpty = b.isEmpty := by
+  rw [Bool.eq_iff_iff, List.isEmpty_iff, List.isEmpty_iff]
+  constructor
+  · intro e
+    cases hb : b with
+    | nil => rfl
+    | cons x rest =>
+      obtain ⟨y, hy, _⟩ := (h.same x.content).mpr ⟨x, by rw [hb]; exact List.mem_cons_self, rfl⟩
+      rw [e] at hy; cases hy
+  · intro e
+    cases ha : a with
+    | nil => rfl
+    | cons x rest =>
+      obtain ⟨y, hy, _⟩ := (h.same x.content).mp ⟨x, by rw [ha]; exact List.mem_cons_self, rfl⟩
+      rw [e] at hy; cases hy
+
+/-- **C08 (ballot representation, dominating tiers).** -/
+theorem C08_tiers_rep (cands : List Cand) (a b : List Ballot) (h : RepEq a b) :
+    dominatingTiers { ballots := a, cands := cands } = dominatingTiers { ballots := b, cands := cands } := by
+  unfold dominatingTiers graphCands
+  simp only [isEmpty_rep a b h, edge_rep cands a b h]
+
+/-- **C08 (ballot representation, DominatingSets).** -/
+theorem C08_domsets_rep (cands : List Cand) (a b : List Ballot) (h : RepEq a b) :
+    dominatingSetsRun { ballots := a, cands := cands } = dominatingSetsRun { ballots := b, cands := cands } := by
+  unfold dominatingSetsRun
+  rw [rankingValid_rep cands a b h, C08_tiers_rep cands a b h]
+
+/-- **C08 (ballot representation, CondoBorda).** -/
+theorem C08_condoborda_rep (cands : List Cand) (a b : List Ballot) (h : RepEq a b) (m : Nat) (pri : List Cand) :
+    condoBordaRun { ballots := a, cands := cands } m pri = condoBordaRun { ballots := b, cands := cands } m pri := by
+  unfold condoBordaRun
+  rw [rankingValid_rep cands a b h, scoreRep_borda cands a b h, C08_tiers_rep cands a b h]
+  split
+  · rfl
+  · cases bordaScores { ballots := b, cands := cands } with
+    | ok sc0 =>
+      simp only [Outcome.bind_ok]
+      have hel : electFromRanking pri (dominatingTiers { ballots := b, cands := cands }) m
+            (some { ballots := a, cands := cands }) (some .borda) =
+          electFromRanking pri (dominatingTiers { ballots := b, cands := cands }) m
+            (some { ballots := b, cands := cands }) (some .borda) := by
+        unfold electFromRanking
+        split
+        · rfl
+        · split
+          · rfl
+          · exact electLoop_tb_congr pri _ _ _ (fun s t => tiebreakSet_rep pri s cands a b h t) m [] _
+      rw [hel]
+      cases electFromRanking pri (dominatingTiers { ballots := b, cands := cands }) m
+          (some { ballots := b, cands := cands }) (some .borda) with
+      | ok r =>
+        simp only [Outcome.bind_ok]
+        have hrc : bordaScores (removeCand r.elected.flatten { ballots := a, cands := cands }) =
+            bordaScores (removeCand r.elected.flatten { ballots := b, cands := cands }) := by
+          unfold removeCand
+          exact scoreRep_borda _ _ _ (h.removeCand r.elected.flatten)
+        rw [hrc]
+      | raised e => rfl
+      | oracleMismatch => rfl
+      | outOfFuel => rfl
+    | raised e => rfl
+    | oracleMismatch => rfl
+    | outOfFuel => rfl
+
+end VK
